@@ -339,10 +339,12 @@ func init() {
 			"identifier contents do not end in a backslash",
 			"unbalanced brackets / quotes belong to C10",
 		},
-		Gen:      genC17,
-		New:      func() any { return &C17Case{} },
-		Check:    func(c any) Result { return checkC17(c.(*C17Case)) },
-		Quick:    4000,
-		Thorough: 30000,
+		Gen:         genC17,
+		New:         func() any { return &C17Case{} },
+		Check:       func(c any) Result { return checkC17(c.(*C17Case)) },
+		FuzzTargets: []string{"FuzzRewriters"},
+		FuzzSeconds: 120,
+		Quick:       4000,
+		Thorough:    30000,
 	})
 }
